@@ -6,6 +6,12 @@ CHECKS = {
  "C01": dict(technique="bounded exhaustive input enumeration (token strings, typed-operand matrix, ladders, run histories) executed on the real VM in journaled worker processes",
              text="Every input of the stated finite spaces (all token strings up to a length bound, every operand slot x value kind, nesting/length/size ladders, all ordered pairs of state-leaving programs) x configurations is executed through the whole public observation sequence; any Go panic, fatal runtime error, OOM or watchdog hang is attributed to its exact input. Exhaustive within the stated bounds, nothing sampled.",
              note="Trusted: the worker/journal process model, the 60 s per-case watchdog and 3 GiB address-space limit as the definition of hang / memory exhaustion; inputs outside the alphabets and length bounds are not covered.", ref="DESIGN.md §4 C01"),
+ "C04": dict(technique="choice-prefix DFS over every die face (VerifRoll seam) on the real VM and exported Roll* functions, against independent rule functions",
+             text="For every parameter tuple of the bounded grid, ALL face sequences are enumerated (exploding pools: all sequences within a choice-point bound, then default faces) and each execution is compared with an independent restatement of the game rule and with the dice it displays; illegal tuples must error.",
+             note="Faces are answered by the harness, so the generator's word-to-face arithmetic is out of scope here (C05). Grid bounds: X<=4,Y<=4 quick / X<=5,Y<=6 thorough; pools <=3 with <=7/9 choice points; large pools deviation-bounded.", ref="DESIGN.md §4 C04"),
+ "C15": dict(technique="choice-prefix DFS computing the complete random outcome set of each expression, compared with min-mode and max-mode runs",
+             text="For every expression of the bounded family the set of all random outcomes is enumerated exhaustively and must lie between the min-mode and max-mode results, which must draw no randomness; plain XdY terms must attain both bounds.",
+             note="Expression family bounded (X<=3,Y<=4 quick); WoD/DC outside the property's quantifier.", ref="DESIGN.md §4 C15"),
 }
 PENDING = {}
 def main():
